@@ -1,6 +1,6 @@
 """Checks built on the bounded stand-ins ACC / INV / CONST (DESIGN.md 4.5) combined with unit X."""
 import os, json, shutil
-from . import acc, xrun, driver, inv, corpus, constck, dbgck, contracts as C
+from . import acc, xrun, driver, inv, corpus, constck, dbgck, gen, contracts as C
 from .driver import Outcome, finish, run_x, report_violations
 from .model import *
 
@@ -80,6 +80,7 @@ def check_c09(out: Outcome):
             it["extra"]["acc_replay"] = {"compiles": compiles, "diagnostics": diag[-600:]}
             it["extra"]["reproduced_by_compilation"] = (compiles == want_reject)
     report_violations_acc(out, items)
+    gen.add_obligations(out, "C09")
     return finish(out, "translation_validation", RUSTC_CMD + "; accepted declarations: " + C_KANI,
                   explanation="bounded accept/reject enumeration against the rule of C09 + Kani proof of exactness/totality for accepted declarations")
 
@@ -138,6 +139,7 @@ def check_c10(out: Outcome):
     # plus the hand-made corpus enums (wide storage, out-of-order, conditional)
     from . import corpus
     run_x(out, corpus.all_programs(out.tier, out.seed), "C10", tag="C10c", history=False)
+    gen.add_obligations(out, "C10")
     return finish(out, "translation_validation", RUSTC_CMD + "; accepted enums: " + C_KANI,
                   explanation="bounded accept/reject enumeration against the rule of C10 + Kani proof that every accepted enum's conversions are total and exact")
 
@@ -216,6 +218,7 @@ def check_c14(out: Outcome):
     out.bounded.append(f"C14: inventory and type-state programs over {len(progs)} corpus declarations ({len(uses)} must/must-not-compile chains: "
                        "complete chain, every proper prefix, every chain with one step left out, swapped steps, builder() where none may exist)")
     _report_inv(out, "C14", failures)
+    gen.add_obligations(out, "C14")
     return finish(out, "translation_validation", RUSTC_CMD + "; annotator inventory",
                   explanation="builder existence and exact mask chain from the inventory of the real expansion; type-state by programs that must / must not compile")
 
